@@ -56,6 +56,9 @@ BLOCKS = [
     'Lot 4 and all accretions thereof',
     'NE/4, being located in the Powder River Basin',
     '40 acres in the NE/4',            # a block that starts with a number (directly after 'Sec 14: ')
+    'Beginning at a point; thence North 100 feet to the point of beginning.',     # ends with a period
+    'Beginning at the intersection 50 feet north of the road',     # a word that merely contains 'section', then a number
+    '.5 acre tract in the NE/4NE/4',   # starts with a decimal point
 ]
 
 DIMS = {
@@ -151,7 +154,7 @@ def render(layout, struct, r):
                     return None
             block = BLOCKS[bi % len(BLOCKS)]
             bi += 1
-            if block[0].isdigit() and layout in ('TR_desc_S', 'desc_STR') and (parts or out):
+            if (block[0].isdigit() or block[:1] == '.') and layout in ('TR_desc_S', 'desc_STR') and (parts or out):
                 # a block that starts with a number, written directly behind the previous block's section number and a
                 # comma / semicolon / blank ('... of Sec 14, 40 acres ...'), *is* a section list by the documented syntax:
                 # not an unambiguous rendering
